@@ -62,7 +62,12 @@ def vget(st, l):
     return None
 
 
+_UNTRACKED = set()     # locals of the function under analysis whose address is taken mutably (set per function by Proto.analyse)
+
+
 def vset(st, l, val):
+    if l in _UNTRACKED and val is not None and val[0] not in ('qs',):
+        val = None
     items = [(k, v) for k, v in st.V if k != l]
     if val is not None:
         items.append((l, val))
@@ -396,6 +401,8 @@ class Proto:
 
     # ------------------------------------------------------------------------------------
     def analyse(self, fn, record=False):
+        global _UNTRACKED
+        _UNTRACKED = fn.mut_borrowed()
         held = self.H(fn)
         core_guards = frozenset(l for l, c in held.guards.items() if c == 'JobQueue.core')
         rh = fn.name in self.requires_held
